@@ -62,7 +62,9 @@ def mode_facts(P, mode):
 
 def factmap(P, func, mode, extra=()):
     facts, al, flag = mode_facts(P, mode)
-    return FactMap(func.node, assume=list(facts) + list(extra), aliases=al)
+    fm = FactMap(func.node, assume=list(facts) + list(extra), aliases=al)
+    fm.func_info = func
+    return fm
 
 
 # ---------------------------------------------------------------------------
